@@ -576,6 +576,85 @@ def render_item(repo: Repo, rel, kind, name, opts, rules: Counter, info: dict) -
     return head + text + '\n'
 
 
+def parse_fn_block(lines, i):
+    """lines[i] is a `//@fn ...` line; returns (FnBlock, index after the block's //@end)"""
+    st = lines[i].strip()
+    parts = [x.strip() for x in st[len('//@fn '):].split('|')]
+    fb = FnBlock(parts[0], parts[1], parts[2])
+    for extra in parts[3:]:
+        if extra.startswith('nth='):
+            fb.nth = int(extra[4:])
+        elif extra.startswith('as='):
+            fb.rename = extra[3:]
+    i += 1
+    cur = None
+    buf = []
+
+    def flush():
+        nonlocal cur, buf
+        text = '\n'.join(buf)
+        if cur is None:
+            pass
+        elif cur[0] == 'spec':
+            fb.spec = text
+        elif cur[0] == 'loop':
+            fb.loops[int(cur[1])] = text
+        elif cur[0] == 'hint':
+            fb.hints.append((cur[1], text))
+        cur, buf = None, []
+
+    def two(s2, key):
+        body = s2[len(key):]
+        if ' => ' in body:
+            x, y = body.split(' => ', 1)
+        else:
+            x, y = body.rstrip('=>').rstrip(), ''
+        return x.strip(), y.strip()
+
+    while i < len(lines):
+        s2 = lines[i].strip()
+        if s2.startswith('//@end'):
+            flush()
+            i += 1
+            break
+        if s2.startswith('//@spec'):
+            flush()
+            cur = ('spec',)
+        elif s2.startswith('//@loop '):
+            flush()
+            cur = ('loop', s2.split()[1])
+        elif s2.startswith('//@hint '):
+            flush()
+            cur = ('hint', s2[len('//@hint '):].strip())
+        elif s2.startswith('//@ret '):
+            flush()
+            fb.ret = s2.split()[1]
+        elif s2.startswith('//@trusted'):
+            flush()
+            fb.trusted = True
+        elif s2.startswith('//@attr '):
+            flush()
+            fb.attrs.append(s2[len('//@attr '):])
+        elif s2.startswith('//@bodysub? '):
+            flush()
+            x, y = two(s2, '//@bodysub? ')
+            fb.bodysub.append((x, y, True))
+        elif s2.startswith('//@bodysub '):
+            flush()
+            x, y = two(s2, '//@bodysub ')
+            fb.bodysub.append((x, y, False))
+        elif s2.startswith('//@sigsub '):
+            flush()
+            x, y = two(s2, '//@sigsub ')
+            fb.sigsub.append((x, y))
+        elif s2.startswith('//@'):
+            raise Unsupported('unknown directive ' + s2)
+        else:
+            buf.append(lines[i])
+        i += 1
+    return fb, i
+
+
 def build_unit(template_path: str, repo_root: str, verif_root: str, canary: bool = False):
     """-> (rust_text, info).  Raises LostAnchor / Unsupported."""
     repo = Repo(repo_root)
@@ -607,72 +686,23 @@ def build_unit(template_path: str, repo_root: str, verif_root: str, canary: bool
             kind, name = kn.split()
             out.extend(render_item(repo, rel, kind, name, parts[2:], rules, info).split('\n'))
             i += 1
-        elif st.startswith('//@fn '):
-            parts = [x.strip() for x in st[len('//@fn '):].split('|')]
-            fb = FnBlock(parts[0], parts[1], parts[2])
-            for extra in parts[3:]:
-                if extra.startswith('nth='):
-                    fb.nth = int(extra[4:])
-                elif extra.startswith('as='):
-                    fb.rename = extra[3:]
+        elif st.startswith('//@assumed '):
+            # contract of a function that is proved in another unit: same directive block (signature rewrites + //@spec), body dropped
+            src_tpl, fname = [x.strip() for x in st[len('//@assumed '):].split('|')]
+            tl = expand(os.path.join(verif_root, src_tpl))
+            hit = [k for k, l in enumerate(tl) if l.strip().startswith('//@fn ') and
+                   (lambda ps: ps[2] == fname or ('as=' + fname) in ps[3:])([x.strip() for x in l.strip()[len('//@fn '):].split('|')])]
+            if len(hit) != 1:
+                raise LostAnchor(f'assumed contract {fname} not found exactly once in {src_tpl}')
+            fb, _ = parse_fn_block(tl, hit[0])
+            fb.trusted = True
+            fb.attrs = [x for x in fb.attrs if 'exec_allows_no_decreases_clause' not in x]
+            info.setdefault('assumed_from', []).append({'fn': fname, 'proved_in': src_tpl})
             i += 1
-            cur = None
-            buf = []
-
-            def flush():
-                nonlocal cur, buf
-                text = '\n'.join(buf)
-                if cur is None:
-                    pass
-                elif cur[0] == 'spec':
-                    fb.spec = text
-                elif cur[0] == 'loop':
-                    fb.loops[int(cur[1])] = text
-                elif cur[0] == 'hint':
-                    fb.hints.append((cur[1], text))
-                cur, buf = None, []
-
-            while i < len(lines):
-                s2 = lines[i].strip()
-                if s2.startswith('//@end'):
-                    flush()
-                    i += 1
-                    break
-                if s2.startswith('//@spec'):
-                    flush()
-                    cur = ('spec',)
-                elif s2.startswith('//@loop '):
-                    flush()
-                    cur = ('loop', s2.split()[1])
-                elif s2.startswith('//@hint '):
-                    flush()
-                    cur = ('hint', s2[len('//@hint '):].strip())
-                elif s2.startswith('//@ret '):
-                    flush()
-                    fb.ret = s2.split()[1]
-                elif s2.startswith('//@trusted'):
-                    flush()
-                    fb.trusted = True
-                elif s2.startswith('//@attr '):
-                    flush()
-                    fb.attrs.append(s2[len('//@attr '):])
-                elif s2.startswith('//@bodysub? '):
-                    flush()
-                    a, b = s2[len('//@bodysub? '):].split(' => ', 1) if ' => ' in s2 else (s2[len('//@bodysub? '):].rstrip('=>').rstrip(), '')
-                    fb.bodysub.append((a.strip(), b.strip(), True))
-                elif s2.startswith('//@bodysub '):
-                    flush()
-                    a, b = s2[len('//@bodysub '):].split(' => ', 1) if ' => ' in s2 else (s2[len('//@bodysub '):].rstrip('=>').rstrip(), '')
-                    fb.bodysub.append((a.strip(), b.strip(), False))
-                elif s2.startswith('//@sigsub '):
-                    flush()
-                    a, b = s2[len('//@sigsub '):].split(' => ', 1) if ' => ' in s2 else (s2[len('//@sigsub '):].rstrip('=>').rstrip(), '')
-                    fb.sigsub.append((a.strip(), b.strip()))
-                elif s2.startswith('//@'):
-                    raise Unsupported('unknown directive ' + s2)
-                else:
-                    buf.append(lines[i])
-                i += 1
+            out.append(f'// contract assumed here, discharged in {src_tpl}')
+            out.extend(render_fn(repo, fb, rules, info, canary).split('\n'))
+        elif st.startswith('//@fn '):
+            fb, i = parse_fn_block(lines, i)
             first = len(out) + 1
             out.extend(render_fn(repo, fb, rules, info, canary).split('\n'))
             fn_spans.append((first, len(out), fb.name))
